@@ -62,6 +62,18 @@ func genTarget(c *sim.Case, label string) string {
 	if p == "/cb" || p == "/logout" {
 		p += "x"
 	}
+	if sim.Weighted(c, label+".long", 11, 1) == 1 {
+		// links that carry state: a few KiB of path or query
+		unit := sim.PickStr(c, label+".long.unit", "filter=status%3Aopen&", "id=12345&", "a=b&", "seg/", "x")
+		long := strings.Repeat(unit, 1+(1500+sim.Pick(c, label+".long.len", 6000))/len(unit))
+		if strings.HasSuffix(unit, "/") || unit == "x" {
+			if sim.Bool(c, label+".long.q") {
+				return p + "/" + long + "?v=1"
+			}
+			return p + "/" + long
+		}
+		return p + "?" + long + "end=1"
+	}
 	if q := genQuery(c, label+".q"); q != "" {
 		return p + "?" + q
 	}
